@@ -36,7 +36,8 @@ head = '''# Seeded changes and the checks that catch them
 
 Each row: a change produced by an independent sub-agent from the property text alone (waves m1/m2: "realistic
 breaking change"; waves m3/m4: "subtle, hard to hit: rare shapes / dtypes / boundaries, multi-step sequences on
-shared objects, cooperating edits"), confirmed by `tools/confirm_mut.sh` (demo passes on the original tree, fails
+shared objects, cooperating edits"; waves m5..m11: the same brief with the earlier changes listed as ideas not to repeat, each wave
+evaluated first with a frozen copy of the checks - `heldout_first_pass.txt` in the directories), confirmed by `tools/confirm_mut.sh` (demo passes on the original tree, fails
 with the patch; the pinned suite passes unchanged), then applied to a scratch worktree of /repo
 (`tools/run_seeded.sh`, harness pointed at it by VERIF_REPO) and checked with `./check <id> quick`.
 `detected by` lists the checks that exited 1 with a VIOLATION line ("thorough tier:" when only
